@@ -272,9 +272,10 @@ def run_lexical(case):
     except Exception as e:
         got = 'exc:%r' % (e,)
     log = list(LOG)
-    if lazy_in_nested_group(full) and got[:2] == want[:2] and sorted(log) == sorted(want_log):
+    if lazy_in_nested_group(full) and got[:2] == want[:2] and set(log) == set(want_log):
         # a lazy iterator created inside a Group that is itself nested in a Group, consumed after the inner Group has finished: which
-        # accumulators its items end up in is not specified anywhere; the MODES (the subject of this property) are still compared
+        # accumulators its items end up in - and how often a failing item is retried while it is drained - is not specified anywhere; the MODE
+        # of every probe (the subject of this property) is still compared
         got = want
         log = want_log
     if log != want_log or got != want:
